@@ -846,6 +846,13 @@ def gen_icwalk_trace(seed):
     ways = r.choice([1, 2, 4, 8]) if strat == "plru" else r.choice([1, 2, 3, 4, 5, 8])
     cfg = {"kind": "icwalk", "strat": strat, "ways": ways, "ib": r.randint(0, 3), "bb": r.choice([0, 1, 1, 2, 2, 3]),
            "pen": r.choice([0, 1, 3, 7]), "prepopulated": r.random() < 0.3}
+    rs = R.stream(seed, "icwalk-state")
+    if rs.random() < 0.35:
+        # the cache system as the architectural state builds it from the front end's options, next to a data cache
+        # with the *other* policy and another penalty (a slip in the wiring of the two option objects shows)
+        cfg["prepopulated"] = False
+        cfg["via_state"] = {"enable": rs.random() < 0.7, "ib": rs.randint(0, 2), "bb": rs.randint(0, 2), "ways": rs.choice([1, 2, 4]),
+                            "kind": rs.choice(["wb", "wt"]), "strat": "plru" if strat == "lru" else "lru", "pen": cfg["pen"] + rs.choice([1, 2, 5])}
     nprog = r.choice([r.randint(1, 6), r.randint(4, 40), r.randint(30, 120)])
     ops = [["LOAD", nprog]]
     pc = 0
@@ -899,13 +906,57 @@ def exec_icwalk(trace, prop) -> Result:
             backing.write_instructions(program(ops[0][1]))
             ops = ops[1:]
             res.probes["cache system constructed around a populated instruction memory"] += 1
-        sut = InstructionMemoryCacheSystem(backing, cfg["ib"], cfg["bb"], cfg["ways"], pm, cfg["pen"], cfg["strat"])
+        if cfg.get("via_state"):
+            from architecture_simulator.uarch.memory.cache import CacheOptions
+            from architecture_simulator.uarch.riscv.riscv_architectural_state import RiscvArchitecturalState
+
+            d = cfg["via_state"]
+            state = RiscvArchitecturalState(
+                data_cache_options=CacheOptions(d["enable"], d["ib"], d["bb"], d["ways"], d["kind"], d["strat"], d["pen"]),
+                instruction_cache_options=CacheOptions(True, cfg["ib"], cfg["bb"], cfg["ways"], "wt", cfg["strat"], cfg["pen"]),
+            )
+            sut, pm = state.instruction_memory, state.performance_metrics
+            res.probes["instruction cache built by the architectural state from options (data cache with the other policy)"] += 1
+        else:
+            sut = InstructionMemoryCacheSystem(backing, cfg["ib"], cfg["bb"], cfg["ways"], pm, cfg["pen"], cfg["strat"])
     except Exception as e:  # noqa: BLE001
-        res.violate("C11", "simulation-could-not-be-constructed", got=f"{type(e).__name__}: {e}"[:200], config=cfg)
+        res.violate(prop if prop in ("C10", "C11") else "C11", "simulation-could-not-be-constructed", got=f"{type(e).__name__}: {e}"[:200], config=cfg)
         res.digest = "ctor"
         return res
     ref = RefCache("ro", cfg["ib"], cfg["bb"], cfg["ways"], cfg["strat"])
     fetches = 0
+    # C10: the replacement policy of every set against the block accesses the set really receives (same spy and same
+    # model as in the data-cache histories), also across reset() - a fresh policy state is expected afterwards
+    spy = _SetSpy()
+    c10_sets = _LazyRefSets(cfg["ways"], cfg["strat"])
+    if prop == "C10":
+        spy.attach(sut)
+
+    def follow_policy(i, op):
+        for (what, k, tag, hit, way) in spy.log:
+            ms = c10_sets[k]
+            if hit and way is not None:
+                ms.policy.touch(way)
+                ms.tags[way] = tag
+            elif what == "WB" and way is not None:
+                v = ms.policy.victim()
+                if way != v:
+                    res.violate("C10", "wrong-victim", at=i, expected=v, got=way, op=op, set=k, policy_state=ms.policy.repr(),
+                                note="instruction cache: the way a fill went into is not the way the configured policy designates")
+                    return False
+                ms.tags[v] = tag
+                ms.policy.touch(v)
+        n_acc = len(spy.log)
+        spy.log.clear()
+        for k, st_ in enumerate(sut.cache.sets):
+            rep = list(st_.replacement_strategy.get_repr())
+            want = c10_sets[k].policy.repr()
+            if [bool(x) if cfg["strat"] == "plru" else int(x) for x in rep] != want:
+                res.violate("C10", "policy-state" if n_acc else "policy-state-changed-without-a-block-access", at=i, expected=want,
+                            got=rep, op=op, set=k, note="instruction cache, configured policy " + cfg["strat"])
+                return False
+        return True
+
     for i, op in enumerate(ops):
         kind = op[0]
         try:
@@ -925,6 +976,13 @@ def exec_icwalk(trace, prop) -> Result:
                     break
                 res.probes["instruction-cache reset"] += 1
                 hs.add(i, "RESET")
+                if prop == "C10":
+                    c10_sets.clear()
+                    spy.attach(sut)
+                    spy.log.clear()
+                    if not follow_policy(i, op):
+                        break
+                    res.probes["policy state fresh after an instruction-cache reset"] += 1
             elif kind == "INSPECT":
                 c0 = (sut.hits, sut.accesses, sut.last_was_hit, pm.cycles)
                 sut.cache_repr()
@@ -962,6 +1020,10 @@ def exec_icwalk(trace, prop) -> Result:
                 if pm.cycles - c0 != (0 if hit else cfg["pen"]):
                     res.violate("C11", "penalty-cycles", at=i, expected=0 if hit else cfg["pen"], got=pm.cycles - c0, address=a)
                     break
+                if prop == "C10":
+                    if not follow_policy(i, op):
+                        break
+                    res.probes["instruction-cache fetch followed by the policy model"] += 1
         except Exception as e:  # noqa: BLE001
             res.violate("C11", "instruction-cache-raised", at=i, got=f"{type(e).__name__}: {e}"[:200], op=op)
             break
